@@ -15,17 +15,22 @@ Harness-side proxies sit on public interfaces only:
     schedule, yield with/without timeout, return, raise).
 
 case = {"api": "low"|"high", "naddr": n, "early": [[a, dhex], …] (received before serve() runs),
-        "progs": {a: [[stage, …], …]} per address a list of generator programs, stage = {"s": suspensions, "do": y|yt|r|e|c, "t": ticks}
+        "progs": {a: [[stage, …], …]} per address a list of generator programs, stage = {"s": suspensions, "do": y|yt|r|e|c|g|tg, "t": ticks}
                  (r = return, e = raise an ordinary exception (api high: swallowed and logged by _ClientContext; api low:
                  treated as r), c = raise CancelledError: ends only the generator's own task, the task group tolerates a
-                 cancelled child and the server goes on — the datagrams queued behind it must still be handled),
-        "script": [[action, …] per loop turn], "never": [a, …] addresses whose gates are never released}
+                 cancelled child and the server goes on — the datagrams queued behind it must still be handled,
+                 g = raise the exception built from stage["tree"] ("ClassName" | ["g", tree, …]: an ExceptionGroup, possibly
+                 nested, of Exception leaves of GROUP_LEAVES, possibly mixed with / made only of ClientClosedError),
+                 tg = do the work in a real `asyncio.TaskGroup` of stage["n"] failing children (+ one that succeeds): the
+                 generator ends with the ExceptionGroup the task group raises; api low: g and tg are treated as r),
+        "script": [[action, …] per loop turn], "never": [a, …] addresses whose gates are never released,
+        "eager": bool (the loop's task factory is asyncio.eager_task_factory)}
 actions: ["a", addr, dhex, susp]  datagram arrives (susp = loop turns its handler sleeps while acquiring the lock)
          ["g", addr]              release the gate the generator of addr is waiting on
          ["t", n]                 advance the virtual clock
 
 Observable lines:
-  arrive a d | h a d | hs a | hl a | rs a | cb a | wk a | y a | yt a t | req a d | bad a d | to a | end a r|e|c | gate a | go a
+  arrive a d | h a d | hs a | hl a | rs a | cb a | wk a | y a | yt a t | req a d | bad a d | to a | end a r|e|c|g | gate a | go a
   quiet | left a n | active-max a k
 """
 from __future__ import annotations
@@ -198,9 +203,22 @@ class Env:
                 for _ in range(int(st.get("s", 0))):
                     await self.gate(a)
                 do = st.get("do", "y")
-                if do == "r" or (do == "e" and not high):
+                if do == "r" or (do in ("e", "g", "tg") and not high):
                     self.log(f"end {a} r")
                     return
+                if do == "g":
+                    self.log(f"end {a} g")
+                    raise make_exc(st.get("tree", ["g", "RuntimeError"]))
+                if do == "tg":
+                    # part of the work of this request is done by children of a task group, some of which fail
+                    try:
+                        async with asyncio.TaskGroup() as tg:
+                            tg.create_task(_child(False, 0))
+                            for i in range(max(1, int(st.get("n", 1)))):
+                                tg.create_task(_child(True, i))
+                    except BaseException:
+                        self.log(f"end {a} g")
+                        raise
                 if do == "e":
                     self.log(f"end {a} e")
                     raise RuntimeError("scripted request handler error")
@@ -225,6 +243,37 @@ class Env:
                 stage += 1
         finally:
             self.active[a] -= 1
+
+
+class UserError(Exception):
+    """a user-defined Exception subclass"""
+
+
+GROUP_LEAVES = ("RuntimeError", "ValueError", "OSError", "ConnectionResetError", "UserError", "ClientClosedError")
+
+
+def make_exc(tree) -> BaseException:
+    """ "ClassName" -> an instance; ["g", tree, …] -> ExceptionGroup of the members"""
+    if isinstance(tree, str):
+        if tree == "ClientClosedError":
+            from easynetwork.exceptions import ClientClosedError
+            return ClientClosedError("scripted: closed client")
+        if tree == "UserError":
+            return UserError("scripted request handler error")
+        cls = {"RuntimeError": RuntimeError, "ValueError": ValueError, "OSError": OSError,
+               "ConnectionResetError": ConnectionResetError}[tree]
+        return cls("scripted request handler error")
+    return ExceptionGroup("scripted request handler errors", [make_exc(t) for t in tree[1:]])
+
+
+async def _child(fail: bool, i: int) -> None:
+    # (always at least one suspension before failing: the parent is then waiting in TaskGroup.__aexit__ when the failure is
+    #  reported.  A child that fails during an EAGER first step makes CPython 3.12.1's TaskGroup cancel its running parent
+    #  and leave the request pending after the group has been left: an interpreter quirk, not what is examined here)
+    for _ in range(1 + i % 2):
+        await asyncio.sleep(0)
+    if fail:
+        raise (ValueError if i % 2 else RuntimeError)(f"scripted worker failure {i}")
 
 
 def _bad_payload(exc) -> str:
@@ -402,6 +451,8 @@ def run_case(case: dict) -> list[str]:
         return cb
 
     async def main(loop):
+        if case.get("eager"):
+            loop.set_task_factory(asyncio.eager_task_factory)
         backend = AsyncIOBackend()
         transport, protocol = await loop.create_datagram_endpoint(lambda: DatagramListenerProtocol(loop=loop), sock=sock)
         adapter = DatagramListenerSocketAdapter(backend, transport, protocol)
